@@ -107,7 +107,21 @@ fn process_request_obj(request: &Request, dbs: &Arc<Databases>, client: &mut Cli
             &dbs,
             &client,
             &key,
-            &|_db| remove_key(&key, _db),
+            &|_db| {
+                let respose = remove_key(&key, _db);
+                // A remove accepted by a node that is not the primary is handed to the primary
+                // like a set, otherwise the rest of the cluster never hears of it
+                if !dbs.is_primary() {
+                    if let Response::Ok {} = respose {
+                        let db_name_state = _db.name.clone();
+                        send_message_to_primary(
+                            get_replicate_remove_message(db_name_state.to_string(), key.clone()),
+                            dbs,
+                        );
+                    }
+                }
+                respose
+            },
             PermissionKind::Remove,
         ),
 
